@@ -55,6 +55,19 @@ UNITS.append(Unit(uid="U03.5.eos_flush", prop="C03", harness="harness/c19_intra.
                        "picture, a full mini-GOP, or in low delay; an EOS buffer is released in full whatever its fill level "
                        "(else the tail of a stream would never be coded)",
                   assumptions=["block slice: the statements of the release branch after the first mini-GOP set-up are dropped"]))
+UNITS.append(Unit(uid="U03.6.window_map", prop="C03", harness="harness/c19_intra.c", entry="h_window", mode="plain", defines=["U03_WINDOW"],
+                  functions=["handle_incomplete_picture_window_map"], keep_bodies=["handle_incomplete_picture_window_map"],
+                  min_obligations=20, canaries=1, cover_functions=["handle_incomplete_picture_window_map"], timeout=600, mem_gb=16, unwind=8,
+                  what="an EOS-flushed incomplete buffer is cut into mini-GOPs without losing a picture: given mini-GOPs contiguous "
+                       "from picture 0, the function leaves them contiguous and the last one ends at the last buffered picture "
+                       "(<= 6 mini-GOPs already built, <= 64 pictures, witness index)"))
+for _uid, _defs, _file in (("U03.7.copy_header_api", [], "EbEncHandle.c"), ("U03.7.copy_header_overlay", ["U03_COPY_RCO"], "EbResourceCoordinationProcess.c")):
+    UNITS.append(Unit(uid=_uid, prop="C03", harness="harness/c03_copyhdr.c", entry="h_copyhdr", mode="plain", defines=_defs,
+                      functions=["copy_input_buffer [%s]" % _file], keep_bodies=["copy_input_buffer"], replace_calls={"copy_frame_buffer": "stub_copy_frame", "copy_metadata_buffer": "stub_copy_md"}, min_obligations=20, canaries=1,
+                      cover_functions=[], timeout=600, mem_gb=16, unwind=4,
+                      what="header copy of a submitted picture (%s): pts, flags, picture type, QP, size fields and tick count of "
+                           "the copy equal the caller's; no metadata => NULL; the caller's header is untouched" % _file,
+                      assumptions=["pixel and metadata deep copies have their bodies removed (C21 units)"]))
 META = {"C03": {
     "level": "proof",
     "explanation": "What the last kernel does to each picture and each temporal unit, on mechanical block slices of "
